@@ -100,7 +100,8 @@ def Spec.setPlayer (o : Obs) (parm val : Int) : Cell :=
     -- the general "-XMP_ERROR_STATE if the player is not in playing state" cannot apply to a voice count that
     -- the player allocates when it starts: either reading of the state rule is accepted, but never an
     -- error code together with an effect
-    { mayState := true, invalid := val < 0,
+    -- no maximum is documented ("if set too high … excessive CPU usage"): counts above the default may be refused
+    { mayState := true, invalid := val < 0, mayInvalid := val > Doc.voicesDefault,
       succ := fun r o' => r == 0 && decide (o' = { o with voices := val }) }
   else  -- XMP_PLAYER_STATE, XMP_PLAYER_MIXER_TYPE (read only) and unknown numbers
     { invalid := true, mayState := true, succ := fun _ _ => false }
